@@ -161,12 +161,12 @@ func TestVerifQNDLEQ(t *testing.T) {
 	}
 	var cases []cs
 	for _, m := range mods {
-		per := lib.Scale(24, 400)
+		per := lib.Scale(24, 80)
 		switch {
 		case m.N.BitLen() > 1600:
-			per = lib.Scale(3, 40)
+			per = lib.Scale(3, 8)
 		case m.N.BitLen() > 600:
-			per = lib.Scale(6, 80)
+			per = lib.Scale(6, 16)
 		}
 		for i := 0; i < per; i++ {
 			cases = append(cases, cs{m, i})
